@@ -65,6 +65,10 @@ type Property struct {
 	// Components for the evidence file.
 	Real, Stub  []string
 	Assumptions []string
+	// Required lists the probes and fault kinds that every run of a tier's
+	// default budget must have hit at least once: a stratum that silently stopped
+	// being generated is a broken check, not a clean one (verifctl exits 2).
+	Required []string
 	// QuickRuns/ThoroughRuns are seeded-run budgets (thorough is also time-boxed).
 	QuickRuns, ThoroughRuns int
 }
@@ -232,7 +236,7 @@ func WorkerMain(t *testing.T) {
 		os.Exit(2)
 	}
 	if os.Getenv("VERIF_META") != "" {
-		m := map[string]interface{}{"level": p.Level, "rule": p.Rule, "real": p.Real, "stub": p.Stub, "assumptions": p.Assumptions, "race": p.Race, "exhaustive": p.Expand != nil}
+		m := map[string]interface{}{"level": p.Level, "rule": p.Rule, "real": p.Real, "stub": p.Stub, "assumptions": p.Assumptions, "race": p.Race, "exhaustive": p.Expand != nil, "required": p.Required}
 		b, _ := json.Marshal(m)
 		fmt.Printf("META:%s\n", b)
 		return
